@@ -3,6 +3,7 @@ package main
 // Merged (guarded) symbolic execution of go/ssa functions.
 
 import (
+	"os"
 	"fmt"
 	"go/constant"
 	"go/token"
@@ -26,6 +27,7 @@ type NondetRec struct {
 	Kind  string // int, enum, bool, string, float, lang, pick
 	Var   *Term
 	Opts  []string // pick options
+	Fixed int64
 }
 
 type AssertRec struct {
@@ -65,6 +67,7 @@ type Exec struct {
 	initObjects int
 
 	tagIDs map[string]int64
+	fixed  map[string]int64 // cube splitting: labels fixed to constants in this run
 }
 
 func newExec(prog *ssa.Program) *Exec {
@@ -388,6 +391,13 @@ func (fr *frame) runBlock(b *ssa.BasicBlock) {
 	for _, ins := range b.Instrs[len(phis):] {
 		ex.instrCount++
 		fr.step(ins, g, b)
+		if debugLift {
+			if v, ok := ins.(ssa.Value); ok {
+				if t, ok := fr.env[v].(*Term); ok && t != nil && t.op == OpCases && len(t.cases) > 40 {
+					fmt.Fprintf(os.Stderr, "SIZE %d %s = %s at %s\n", len(t.cases), v.Name(), ins, debugWhere)
+				}
+			}
+		}
 	}
 }
 
@@ -660,6 +670,9 @@ type ElemRef struct {
 func (fr *frame) step(ins ssa.Instruction, g *Term, b *ssa.BasicBlock) {
 	ex := fr.ex
 	where := func() string { return ex.prog.Fset.Position(ins.Pos()).String() }
+	if debugLift {
+		debugWhere = where()
+	}
 	switch x := ins.(type) {
 	case *ssa.DebugRef:
 	case *ssa.Alloc:
